@@ -229,9 +229,12 @@ def validate(ctx, trace, label, ntraces, prop="C01", chunk=250000):
         os.remove(pth)
 
 
-def validate_one(ctx, trace, label, ntraces, prop="C01"):
+def run_trace_tlc(ctx, trace, label):
+    """Run RaftPinsetTrace on one NDJSON file; returns (verdict record, parsed lines, TLC result)."""
     import vcheck
     verdict = os.path.join(ctx.work, "c01_verdict_%s.ndjson" % label)
+    if os.path.exists(verdict):
+        os.remove(verdict)
     r = tla.run_tlc(ctx.specdir(), "RaftPinsetTrace.tla", "RaftPinsetTrace.cfg", workers=1, timeout=3000, heap="6g",
                     env_extra={"TRACE_FILE": trace, "VERDICT_FILE": verdict})
     ctx.log("tlc RaftPinsetTrace (%s): rc=%s generated=%d %.1fs" % (label, r.rc, r.generated, r.wall))
@@ -242,6 +245,12 @@ def validate_one(ctx, trace, label, ntraces, prop="C01"):
     lines = [json.loads(l) for l in open(trace)]
     if v["n"] != len(lines):
         raise vcheck.Infra("verdict covers %d of %d trace lines" % (v["n"], len(lines)))
+    return v, lines, r
+
+
+def validate_one(ctx, trace, label, ntraces, prop="C01"):
+    import vcheck
+    v, lines, r = run_trace_tlc(ctx, trace, label)
     badruns = set()
     for b in v["bad"]:
         ln = lines[b["line"] - 1]
@@ -252,11 +261,185 @@ def validate_one(ctx, trace, label, ntraces, prop="C01"):
     if v["stuck"]:
         first = v["stuck"][0]
         print("trace line not explained by the specification: %s" % json.dumps(lines[first - 1]))
-        raise vcheck.Infra("%d recorded events of %s cannot be matched to any specification action (first: line %d)"
+        raise vcheck.Infra("SPEC-DRIFT: %d recorded events of %s cannot be matched to any specification action (first: line %d)"
                            % (len(v["stuck"]), label, first))
     ctx.traces_validated += max(0, ntraces - len(badruns))
     ctx.extra["trace_events_checked_by_tlc_" + label] = v["n"]
     ctx.model_runs.append({"module": "RaftPinsetTrace.tla", "cfg": label, "trace_lines": v["n"], "wall_s": round(r.wall, 1)})
+    return v
+
+
+# ------------------------------------------------ the repository's own tests as validated traces
+RAFT_PKG = "github.com/ipfs/ipfs-cluster/consensus/raft"
+RAFT_TESTS = ["TestConsensusPin", "TestConsensusUnpin", "TestConsensusUpdate", "TestConsensusAddPeer",
+              "TestConsensusRmPeer", "TestConsensusLeader", "TestRaftLatestSnapshot"]
+ROOT_PKG = "github.com/ipfs/ipfs-cluster"
+ROOT_TESTS = ["TestClustersPin", "TestClustersUnpin", "TestClustersPeerAdd", "TestClustersPeerRemove"]
+
+
+def observer_present(ctx):
+    for rel in ("consensus/raft/verif_on.go", "state/dsstate/verif_on.go"):
+        fn = os.path.join(ctx.repo, rel)
+        if not os.path.exists(fn) or "VERIF_TRACE_FILE" not in open(fn).read():
+            return False
+    return True
+
+
+def build_test_binary(ctx, pkg, name):
+    import subprocess
+    import vcheck
+    out = os.path.join(ctx.work, name + ".test")
+    cmd = ["go", "test", "-c", "-modfile=" + ctx.modfile(), "-tags", "verif", "-vet=off", "-o", out, pkg]
+    cp = subprocess.run(cmd, cwd=os.path.join(ctx.verif, "harness"), env=ctx.goenv(), stdout=subprocess.PIPE,
+                        stderr=subprocess.STDOUT, timeout=1800)
+    if cp.returncode != 0 or not os.path.exists(out):
+        print(cp.stdout.decode("utf-8", "replace")[-3000:])
+        raise vcheck.Infra("cannot build the test binary of %s" % pkg)
+    return out
+
+
+def run_repo_tests(ctx, binary, tests, label, extra_args=(), par=4, timeout=600):
+    """Each test in its own process and scratch working directory (the tests create their raft folders
+    relative to the cwd), with VERIF_TRACE_FILE set: returns {test: raw trace path}."""
+    import subprocess
+    import vcheck
+    out = {}
+    pending = list(tests)
+    running = []
+    failed = []
+    while pending or running:
+        while pending and len(running) < par:
+            t = pending.pop(0)
+            cwd = os.path.join(ctx.work, "repotest_%s_%s" % (label, t))
+            os.makedirs(cwd, exist_ok=True)
+            tr = os.path.join(ctx.work, "repotest_%s_%s.ndjson" % (label, t))
+            env = ctx.goenv()
+            env["VERIF_TRACE_FILE"] = tr
+            logf = open(os.path.join(cwd, "output.log"), "w")
+            pr = subprocess.Popen([binary, "-test.count=1", "-test.timeout=%ds" % timeout, "-test.run", "^%s$" % t] + list(extra_args),
+                                  cwd=cwd, env=env, stdout=logf, stderr=subprocess.STDOUT)
+            running.append((t, pr, tr, cwd, logf))
+        for item in list(running):
+            t, pr, tr, cwd, logf = item
+            try:
+                pr.wait(timeout=1)
+            except subprocess.TimeoutExpired:
+                continue
+            running.remove(item)
+            logf.close()
+            if pr.returncode != 0:
+                failed.append((t, open(os.path.join(cwd, "output.log")).read()[-1500:]))
+            else:
+                out[t] = tr
+    if failed:
+        print(failed[0][1])
+        raise vcheck.Infra("the repository's own test %s failed (not a verdict of this check)" % failed[0][0])
+    return out
+
+
+def convert_repo_trace(raw, run_id):
+    """Raw observer lines (concrete peer ids / CIDs / pin digests, per-process seq order) -> RaftPinsetTrace events."""
+    if not os.path.exists(raw):
+        return []
+    evs = [json.loads(l) for l in open(raw)]
+    evs.sort(key=lambda e: (e.get("pid", 0), e["seq"]))
+    peers, cids, vals, store_peer = {}, {}, {"none": "none"}, {}
+
+    def name(tab, key, pref):
+        if key not in tab:
+            tab[key] = "%s%d" % (pref, len(tab) + (0 if pref == "v" else 1))
+        return tab[key]
+    for e in evs:
+        if e["ev"] == "Apply":
+            name(peers, e["p"], "p")
+            store_peer[e.get("store")] = peers[e["p"]]
+        for c in (e.get("st") or {}):
+            name(cids, c, "c")
+        if "cid" in e:
+            name(cids, e["cid"], "c")
+    if not evs:
+        return []
+
+    def pinset(st):
+        out = {c: "none" for c in cids.values()}
+        for c, d in (st or {}).items():
+            out[cids[c]] = name(vals, d, "v")
+        return out
+    lines = [{"ev": "reset", "run": run_id, "peers": sorted(peers.values()), "cids": sorted(cids.values()),
+              "up": sorted(peers.values())}]
+    nsnap = 0
+    for e in evs:
+        if e.get("err"):
+            raise ValueError("observer could not list the state: %s" % e["err"])
+        if e["ev"] == "Apply":
+            st = pinset(e.get("st"))
+            c = cids[e["cid"]]
+            lines.append({"ev": "apply", "run": run_id, "p": peers[e["p"]], "k": e["k"], "cid": c, "v": st[c],
+                          "want": name(vals, e["want"], "v") if e["k"] == "pin" else "none", "st": st, "inited": True})
+        elif e["ev"] == "Unmarshal":
+            p = store_peer.get(e.get("store"))
+            if p:
+                lines.append({"ev": "install", "run": run_id, "p": p, "st": pinset(e.get("st")), "inited": True})
+            else:       # a state outside any consensus component (OfflineState / LastStateRaw readers)
+                nsnap += 1
+                lines.append({"ev": "snapshot", "run": run_id, "p": "reader%d" % nsnap, "st": pinset(e.get("st"))})
+    return lines
+
+
+def repo_tests_stage(ctx):
+    """The executions of the repository's own raft tests, recorded by the default observer of the verif hooks,
+    must be explainable by RaftPinsetTrace with every property predicate true."""
+    import vcheck
+    if not observer_present(ctx):
+        ctx.log("default trace observer (VERIF_TRACE_FILE) absent in %s: repository-test traces skipped" % ctx.repo)
+        ctx.extra["repo_test_traces"] = "skipped (observer absent in VERIF_REPO)"
+        return
+    raws = run_repo_tests(ctx, build_test_binary(ctx, RAFT_PKG, "raftpkg"), RAFT_TESTS, "raft", par=4)
+    if not ctx.quick():
+        raws.update(run_repo_tests(ctx, build_test_binary(ctx, ROOT_PKG, "rootpkg"), ROOT_TESTS, "root",
+                                   extra_args=["-consensus", "raft", "-loglevel", "CRITICAL"], par=2, timeout=900))
+    trace = os.path.join(ctx.work, "c01_repotests_trace.ndjson")
+    per_test = {}
+    all_lines = []
+    for k, t in enumerate(sorted(raws)):
+        try:
+            lines = convert_repo_trace(raws[t], 5000 + k)
+        except ValueError as ex:
+            raise vcheck.Infra("%s: %s" % (t, ex))
+        per_test[t] = len(lines)
+        all_lines += lines
+    with_events = [t for t, n in per_test.items() if n > 1]
+    ctx.extra["repo_test_traces"] = per_test
+    if not with_events:
+        raise vcheck.Infra("the repository tests produced no Apply/Unmarshal event: hooks not compiled in?")
+    with open(trace, "w") as f:
+        for ln in all_lines:
+            f.write(json.dumps(ln) + "\n")
+    validate_one(ctx, trace, "repotests", len(with_events))
+    # ---- self-test of the binding: a corrupted field and a dropped event must be rejected
+    applies = [i for i, ln in enumerate(all_lines) if ln["ev"] == "apply" and ln["k"] == "pin"]
+    multi = [i for i in applies if any(j > i and all_lines[j]["ev"] == "apply" and all_lines[j]["run"] == all_lines[i]["run"]
+                                       and all_lines[j]["p"] == all_lines[i]["p"] and all_lines[j]["cid"] != all_lines[i]["cid"]
+                                       for j in applies)]
+    if not applies or not multi:
+        raise vcheck.Infra("self-test of the trace binding impossible: no suitable recorded events")
+    mutants = []
+    corrupted = [dict(ln) for ln in all_lines]
+    i = applies[-1]
+    corrupted[i] = dict(corrupted[i], st=dict(corrupted[i]["st"], **{corrupted[i]["cid"]: "none"}))
+    mutants.append(("field-corrupted", corrupted))
+    mutants.append(("event-dropped", [ln for j, ln in enumerate(all_lines) if j != multi[0]]))
+    for label, ls in mutants:
+        pth = os.path.join(ctx.work, "c01_repotests_%s.ndjson" % label)
+        with open(pth, "w") as f:
+            for ln in ls:
+                f.write(json.dumps(ln) + "\n")
+        v, _, _ = run_trace_tlc(ctx, pth, "selftest_" + label)
+        if not v["bad"]:
+            raise vcheck.Infra("self-test failed: the %s trace was accepted by RaftPinsetTrace" % label)
+    ctx.extra["repo_test_trace_selftest"] = "corrupted field and dropped event both rejected"
+    if len(ctx.samples) < 8:
+        ctx.samples.append({"repository_tests_validated": with_events, "events": len(all_lines)})
 
 
 def hooks_present(ctx):
@@ -276,7 +459,7 @@ def run(ctx):
                        "the pinset store is the in-memory datastore ipfs-cluster-service gives to raft",
                        "kill points are between FSM operations (seam 1) and between/inside commits at process level (seam 3), "
                        "not at every fsync"]
-    stages = os.environ.get("VERIF_C01_STAGES", "spec,fsm,raft").split(",")   # debugging aid
+    stages = os.environ.get("VERIF_C01_STAGES", "spec,fsm,raft,repotests").split(",")   # debugging aid
     if "spec" in stages:
         spec_stage(ctx)
     if "fsm" in stages:
@@ -284,6 +467,8 @@ def run(ctx):
         validate(ctx, trace, "fsm", 0)
     if "raft" in stages:
         raft_seam(ctx)
+    if "repotests" in stages:
+        repo_tests_stage(ctx)
 
 
 def raft_seam(ctx):
